@@ -108,11 +108,11 @@ def spec : Nat → List Cmd → Bool → Cmd → B → Option B
       match fs[f]? with
       | none => some (B.errexitCheck sup (b.setLast 127))
       | some body =>
-        match spec fuel fs sup body { b with st := { b.st with fdepth := b.st.fdepth + 1 }, level := 0 } with
+        match spec fuel fs sup body { b with st := { b.st with fdepth := b.st.fdepth + 1, scope := b.st.scope + 2 }, level := 0 } with
         | none => none
         | some b1 =>
           some (B.errexitCheck sup
-            { b1 with st := { b1.st with fdepth := b1.st.fdepth - 1 }, level := b.level, returning := false })
+            { b1 with st := { b1.st with fdepth := b1.st.fdepth - 1, scope := b1.st.scope - 2 }, level := b.level, returning := false })
     | .brk n =>
       let lv : Int := n.getD 1
       if b.level = 0 then some (b.setLast 0)                      -- "only meaningful in a loop"
@@ -131,6 +131,8 @@ def spec : Nat → List Cmd → Bool → Cmd → B → Option B
       let c := match code with | some v => low8 v | none => b.st.last
       some { (b.setLast c) with exiting := true }
     | .setOpt o on => some (B.setLast { b with st := b.st.setOpt o on } 0)
+    | .fault k => some (B.errexitCheck sup (b.setLast k.code))
+    | .callT f => spec fuel fs sup (.call f) b
     | .cmdsubst c =>
       -- a command substitution is a subshell; errexit is dropped unless inherit_errexit
       match spec fuel fs sup c { b with st := { b.st with errexit := b.st.errexit && b.st.inheritErrexit }, level := 0 } with
